@@ -26,6 +26,8 @@ def rand_T(rng, small=False):
 
 
 def run(ctx):
+    from harness import fidelity
+    fidelity.check(ctx, ['pteq', 'boxin', 'boxdisj'])
     from shapepy import JordanCurve
     from shapepy import IntegrateShape, Primitive
     rng, drv = ctx.rng, ctx.drv
@@ -81,7 +83,10 @@ def run(ctx):
             ctx.count("rounded-regime")
             ctx.check(canon_close(got, exp, 1e-9 * float(k) * 20), "T(A) op T(B) is not T(A op B) (numerical)", desc, exp[:300], got[:300])
             a1, a0 = float(IntegrateShape.area(TR)), float(k * k * IntegrateShape.area(R))
-            ctx.check(abs(a1 - a0) <= 1e-9 * abs(a0), "area does not scale by the square of the factor (numerical)", desc, a0, a1)
+            # (rounded regime = finding K5: every Point2D operation re-limits denominators to 10^9, an ABSOLUTE quantisation of up to ~1e-12 per
+            #  coordinate in unlucky cases; its effect on the area is perimeter x quantisation, which is what the tolerance allows on top of 1e-9 relative)
+            per = sum(abs(float(v[0])) + abs(float(v[1])) for j in TR.jordans for v in j.vertices)
+            ctx.check(abs(a1 - a0) <= 1e-9 * abs(a0) + 1e-12 * per, "area does not scale by the square of the factor (numerical)", desc, a0, a1)
         # complement, membership, containment
         ctx.check(canon_close(drv.ask("canon " + core.eshape(~TA)), drv.ask("canon " + tshape(~A)), 0), "~T(A) is not T(~A)", desc)
         pts = core.dpts(drv.ask("samples 2 S " + core.epoly(va) + " S " + core.epoly(vb)))
